@@ -367,6 +367,7 @@ async fn spent_input_is_refused_for_every_checked_type() {
             let mut input = Slip::default(); input.public_key = pk; input.amount = 500; input.block_id = 3; input.tx_ordinal = (n * 3 + state) as u64; input.slip_index = 0;
             tx.add_from_slip(input);
             let mut o = Slip::default(); o.public_key = pk; o.amount = 500; tx.add_to_slip(o);
+            if *ty == TransactionType::GoldenTicket { tx.data = vec![7u8; 97]; }   // a golden ticket transaction carries a ticket
             tx.sign(&sk);
             tx.generate(&pk, 0, 8);
             match state { 1 => { blockchain.utxoset.insert(tx.from[0].utxoset_key, false); } 2 => { blockchain.utxoset.insert(tx.from[0].utxoset_key, true); } _ => {} }
